@@ -707,14 +707,15 @@ def history_strategy(shape, variant=None):
         def free_for(x):       # theories that x could additionally import: no cycle, and something to contribute
             return [t for t in THEORIES if x not in closure(t) and t not in closure(x) and CONTENT[t]]
         if kind == 'delete':
-            pool = near
+            # preferably a file the target imports (what the target-side theories cached about it goes stale)
+            pool = [x for x in near if x != target] or near
         elif kind == 'add_import':
             pool = [x for x in cl if free_for(x)] or cl
         else:
             pool = cl
         d = draw(st.sampled_from(pool))                                 # the file that changes
         users = [t for t in cl if d in closure(t)]                      # target-side theories that see d
-        warm = draw(st.sampled_from(users + [target]))
+        warm = target if kind == 'delete' else draw(st.sampled_from(users + [target]))
         block = [['load', warm, draw(limit_for(warm))]]
 
         def ins():
@@ -730,7 +731,7 @@ def history_strategy(shape, variant=None):
             block.append(['restore', d])
         elif kind == 'delete':
             defs = [i for i, it in enumerate(CONTENT[d]) if it[0].startswith('def') or it[0].startswith('type')]
-            if defs and draw(st.booleans()):
+            if defs and draw(st.sampled_from([True, True, True, False])):
                 block.append(['delete', d, draw(st.sampled_from(defs))])     # something later items refer to
             elif CONTENT[d]:
                 block.append(['delete', d, draw(st.integers(0, len(CONTENT[d]) - 1))])
